@@ -565,6 +565,35 @@ def _r16i_subs(ctx):
         ctx.note("R16i: no regex substitution on the append path")
 
 
+def r16j(ctx):
+    """An element is never false.
+
+    replace() skips a text node whose container is missing with `if not container: continue`; the search family, the inserters and the
+    style code test elements the same way in some 200 places.  All of them mean "is None".  That holds only while no class of the Element
+    hierarchy defines `__len__` or `__bool__`: with one, an element without text (an empty text:span left by an editor) becomes false, the
+    run that follows it is silently not replaced and not counted, while the count-only call still counts it.  Rule (expected count 0): no
+    `__len__` / `__bool__` in Element, its subclasses or their mixins; the number of truth tests on names relying on it is reported.
+    """
+    repo = ctx.repo
+    ctx.rule("R16j", "no class of the Element hierarchy defines __len__ or __bool__ (truth tests on elements mean `is not None`)", floor=80)
+    from ..registry import element_classes
+    classes = []
+    for c in element_classes(repo) + [repo.cls("Element")]:
+        for k in c.mro:
+            if k not in classes:
+                classes.append(k)
+    for c in classes:
+        bad = [f for nm in ("__len__", "__bool__") for f in c.methods.get(nm, [])]
+        ctx.instance("R16j", f"{c.module.relpath}:{c.name}", "truthiness is object identity", ok=not bad, nontrivial=bool(bad), line=c.node.lineno)
+        for f in bad:
+            ctx.report("R16j", f, f.node, f"{c.name}.{f.name}",
+                       f"{c.name} defines {f.name}: every `if not <element>` of the package (replace() guards each text node's container that way) now also skips elements that are "
+                       f"merely empty — text after an empty span is neither replaced nor counted, although the regular expression matches it")
+    f = repo.func("Element.replace")
+    n_truth = sum(1 for x in walk_no_nested(f.node) if isinstance(x, ast.If) and (isinstance(x.test, ast.Name) or isinstance(x.test, ast.UnaryOp) and isinstance(x.test.operand, ast.Name)))
+    ctx.extra["truth_tests_on_names_in_replace"] = n_truth
+
+
 def run(ctx):
     arm, else_incs, loop = r16a(ctx)
     r16b(ctx, arm, else_incs, loop)
@@ -575,12 +604,17 @@ def run(ctx):
     r16g(ctx)
     r16h(ctx)
     r16i(ctx)
+    r16j(ctx)
 
 
 from ..selftest import Seed, unparse_seed  # noqa: E402
 
 _EL = "src/odfdo/element.py"
 SEEDS = [
+    Seed("ParagraphBase gets a __len__", "fault", "src/odfdo/paragraph_base.py", "    def get_formatted_text(\n        self,\n        context: dict | None = None,\n        simple: bool = False,\n    ) -> str:\n        if not context:",
+         "    def __len__(self) -> int:\n        return len(self.inner_text)\n\n    def get_formatted_text(\n        self,\n        context: dict | None = None,\n        simple: bool = False,\n    ) -> str:\n        if not context:", "R16j"),
+    Seed("ParagraphBase gets a text_length method", "neutral", "src/odfdo/paragraph_base.py", "    def get_formatted_text(\n        self,\n        context: dict | None = None,\n        simple: bool = False,\n    ) -> str:\n        if not context:",
+         "    def text_length(self) -> int:\n        return len(self.inner_text)\n\n    def get_formatted_text(\n        self,\n        context: dict | None = None,\n        simple: bool = False,\n    ) -> str:\n        if not context:"),
     Seed("_expand_spaces returns copies of the inline children", "fault", "src/odfdo/paragraph.py",
          '            obj.tail = ""\n            if obj.tag != "text:s":\n                result.append(obj)\n                continue',
          '            if obj.tag != "text:s":\n                child = obj.clone\n                child.tail = ""\n                result.append(child)\n                continue', "R16i"),
